@@ -35,7 +35,7 @@
 #include <unistd.h>
 #include <linux/futex.h>
 
-#define MAXT 16
+#define MAXT 64
 #define MAXBUF 256
 struct sbent { void *addr; size_t sz; unsigned long v; int mo; };
 struct thr {
@@ -236,9 +236,12 @@ static int spawn_common(void){ static int inited; if(!inited){ sem_init(&born,0,
 	if(NT>=MAXT){ printf("BUG too many threads\n"); fflush(stdout); _exit(6); }
 	int t=NT++; T[t].alive=1; T[t].want_join=-1; sem_init(&T[t].go,0,0); return t; }
 void vs_spawn(void (*fn)(int)){ int t=spawn_common(); T[t].fn=fn; T[t].is_app=1; pthread_create(&T[t].tid,0,tmain,(void*)(long)t); sem_wait(&ctl); }
+/* fault choice for thread creation: bit k of vs_create_fail_mask makes the k-th pthread_create of the run fail with EAGAIN */
+unsigned long vs_create_fail_mask; static int ncreate;
 int vh_pthread_create(pthread_t *tid, const pthread_attr_t *a, void *(*fn)(void *), void *arg){
 	if(me<0) return pthread_create(tid,a,fn,arg);
-	yield_point(0); int t=spawn_common(); T[t].fn=0; T[t].pfn=fn; T[t].parg=arg; pthread_create(&T[t].tid,0,tmain,(void*)(long)t); sem_wait(&born); *tid=T[t].tid; { char v[64]; pval(v,(unsigned long)arg,8); printf("%d create %d arg=%s\n",me,t,v); } return 0; }
+	yield_point(0);
+	{ int k=ncreate++; if(k<64 && ((vs_create_fail_mask>>k)&1)){ printf("%d create_fail EAGAIN\n",me); return 11; } } int t=spawn_common(); T[t].fn=0; T[t].pfn=fn; T[t].parg=arg; pthread_create(&T[t].tid,0,tmain,(void*)(long)t); sem_wait(&born); *tid=T[t].tid; { char v[64]; pval(v,(unsigned long)arg,8); printf("%d create %d arg=%s\n",me,t,v); } return 0; }
 void vh_pthread_exit(void *r){ if(me>=0){ yield_point(0); T[me].alive=0; T[me].needs_empty=0; printf("%d exit\n",me); sem_post(&ctl);} pthread_exit(r); }
 int vh_pthread_join(pthread_t tid, void **ret){
 	if(me<0) return 0;
@@ -250,8 +253,8 @@ void vs_run(const char *sched){
 	signal(SIGABRT,on_abort); signal(SIGSEGV,on_abort);
 	for(;;){
 		int alive=0; for(int t=0;t<NT;t++) alive+=T[t].alive+T[t].nbuf; if(!alive) break;
-		int c; if(*p) c=*p++; else { int t=rr++%NT; if(T[t].nbuf) c='a'+t; else c='0'+t; }
-		if(c>='a'&&c<'a'+NT){ int t=c-'a'; if(T[t].nbuf){ char l[64], v[64]; vs_ploc(l,T[t].buf[0].addr); pval(v,T[t].buf[0].v,T[t].buf[0].sz); commit_one(t); printf("%d flush %s v=%s\n", t, l, v);} continue; }
+		int c; int rt=-1; if(*p) c=*p++; else { rt=rr++%NT; c = T[rt].nbuf ? 'a' : '0'; }      /* after the schedule: round robin over all threads (ids may exceed 9) */
+		if(rt>=0 ? c=='a' : (c>='a'&&c<'a'+NT)){ int t = rt>=0 ? rt : c-'a'; if(T[t].nbuf){ char l[64], v[64]; vs_ploc(l,T[t].buf[0].addr); pval(v,T[t].buf[0].v,T[t].buf[0].sz); commit_one(t); printf("%d flush %s v=%s\n", t, l, v);} continue; }
 		if(c>='A'&&c<'A'+NT){ int t=c-'A'; if((T[t].want_futex||T[t].want_cond)&&!T[t].woken){ T[t].woken=1; T[t].wake_reason=1; printf("%d spurious\n",t);} continue; }
 		if(c=='!'){ if(*p){ int t=*p++-'0'; if(t>=0&&t<NT&&T[t].want_futex&&!T[t].woken){ T[t].woken=1; T[t].wake_reason=2; } } continue; }
 		if(c=='^'){ if(*p){ int t=*p++-'0'; if(t>=0&&t<NT&&T[t].alive&&sig_handler&&!T[t].want_futex&&T[t].want_join<0){ if(T[t].masked){ T[t].sig_deferred=1; } else { T[t].sig_pending=1; sem_post(&T[t].go); sem_wait(&ctl);} } } continue; }
@@ -271,7 +274,7 @@ void vs_run(const char *sched){
 					if(!enabled(t)) break;
 					sem_post(&T[t].go); sem_wait(&ctl); if(++steps>vs_step_limit){ printf("STEP LIMIT\n"); fflush(stdout); _exit(3);} } } }
 			continue; }
-		int t=c-'0';
+		int t = rt>=0 ? rt : c-'0';
 		if(t<0||t>=NT||!enabled(t)) {
 			if(!*p){ int any=0; for(int u=0;u<NT;u++) any+=enabled(u)+T[u].nbuf;
 				if(!any){ int app=0; for(int u=0;u<NT;u++) if(T[u].alive && T[u].is_app) app++;
